@@ -258,7 +258,7 @@ fn main() {
     sum.rule = "2..10 real nodes over the in-memory router (mesh / ring / random / star connectivity), sequential interleaved put and get from arbitrary non-silent nodes over 4 keys and values of 0,1,37,511,512,513,600 bytes (sometimes re-using an earlier value), nodes turned silent and back at random; before and after every operation the local store of every node is read for every key. Non-trivial = a put with at least one remote target, or a get that sent at least one request; distinct = different (world seed, op index)".into();
     let mut wp = CaseWriter::new(&args.out, "cases_c03p", HEADER, "pcase", "check_pcase", "prop_pcase", 12);
     let mut wg = CaseWriter::new(&args.out, "cases_c03g", HEADER, "gcase", "check_gcase", "prop_gcase", 12);
-    let worlds = if args.thorough() { 360 } else { 24 };
+    let worlds = if args.thorough() { 200 } else { 24 };
     let conc = 8usize;
     let (mut pid, mut gid) = (0u64, 500000u64);
     let mut wi = 0;
